@@ -1,5 +1,6 @@
 import Gaftools.Props.C15
 import Gaftools.Proofs.BiccLemmas
+import Gaftools.Proofs.BiccCutLemmas
 /-!
 # C15 (biccs) — towards exactness of the iterative Hopcroft–Tarjan routine
 
@@ -43,8 +44,8 @@ theorem bgo_wellformed (nb : V → List V) (Vs : List V) (hu : Undirected nb Vs)
 /-- RUNG 4 — soundness of the articulation points: every reported point is a cut vertex -/
 theorem biccs_aps_sound (nb : V → List V) (Vs : List V) (hu : Undirected nb Vs) (hd : Vs.Nodup) (root : V) (hr : root ∈ Vs)
     (hc : connectedB nb Vs = true) :
-    ∀ a ∈ (biccsFrom nb root (biccFuel nb Vs)).2, isCut nb Vs a = true := by
-  sorry
+    ∀ a ∈ (biccsFrom nb root (biccFuel nb Vs)).2, isCut nb Vs a = true :=
+  Gaftools.Proofs.Bicc.aps_sound nb Vs hu hd root hr
 
 /-- RUNG 5 — completeness: every cut vertex is reported -/
 theorem biccs_aps_complete (nb : V → List V) (Vs : List V) (hu : Undirected nb Vs) (hd : Vs.Nodup) (root : V) (hr : root ∈ Vs)
